@@ -117,9 +117,7 @@ def graphs_exhaustive(depth, unary, binary):
 
 
 def graph_key(graph):
-    if graph is None:
-        return "unscaled"
-    return "+".join(sc["t"].lower() for sc in graph) if graph else "unscaled"
+    return L.graph_label(graph)
 
 
 # ---------------------------------------------------------------------------------------
@@ -444,13 +442,13 @@ def order_violations(run):
         cls = kind if kind in NONNUMERIC + ("untyped", "daqmx", "float32") else \
             "complex" if kind.startswith("complex") else "numeric"
         parts = v.key.split("-")[-1].split("+")
-        return (v.kind, cls, parts[-1], len(parts) > 1)
+        return (v.kind, cls, parts[-1].split("[")[0], len(parts) > 1)
     best = {}
     for v in run.violations:
         f = family(v)
         if f not in best or len(v.key) < len(best[f].key):
             best[f] = v
-    canonical = ["dtype-float32-linear", "dtype-int32-linear+advancedapi", "dtype-timestamp-raw-unscaled",
+    canonical = ["dtype-float32-linear", "dtype-int32-linear+advancedapi[0]", "dtype-timestamp-raw-unscaled",
                  "dtype-string-advancedapi", "dtype-string-unscaled"]
     lead = []
     for k in canonical:
